@@ -19,7 +19,7 @@ LEVEL = "exploration"
 EXHAUSTIVE = {"quick": True, "thorough": True}
 RULE = (
     "application with a lenient command, a command with a default sub-command, typed options and a failing handler; a catalogue "
-    "of 18 command lines (valid, missing / surplus argument, unknown option / command, help in its three forms, help with an "
+    "of 22 command lines (valid, missing / surplus argument, unknown option / command, help in its three forms, help with an "
     "ill-typed option, version, empty line, lenient lines). Every history of length 2..L over the catalogue is run on ONE "
     "application and each run compared (status, stdout, stderr, handler arguments) with the same line on a fresh "
     "application; each history is run with fresh RawArgs per run and with the same RawArgs object reused for consecutive "
@@ -29,8 +29,8 @@ RULE = (
     "run before a normal run; distinct by tuple of line ids / (order, customisation)."
 )
 BOUND = {
-    "quick": "all 324 histories of length 2 + 1500 sampled of length 3 x 2 RawArgs modes; 12 style orders; 40 component double renders",
-    "thorough": "all histories of length 2-3 (6156) + 20000 sampled of length 4 x 2 RawArgs modes; 24 orders x 5 customisations; 400 double renders",
+    "quick": "all 484 histories of length 2 + 1500 sampled of length 3 x 2 RawArgs modes; 12 style orders; 40 component double renders",
+    "thorough": "all histories of length 2-3 (11132) + 20000 sampled of length 4 x 2 RawArgs modes; 24 orders x 5 customisations; 400 double renders",
 }
 ASSUMPTIONS = [
     "two runs are equal when status, both streams and the recorded handler invocations (command, arguments, options) are equal",
@@ -39,6 +39,7 @@ ASSUMPTIONS = [
 LINES = [
     ["one", "x"], ["one", "x", "--num=5"], ["one"], ["one", "x", "y"], ["one", "x", "--bogus"], ["nosuch"], ["help"], ["help", "one"], ["one", "--help"],
     ["one", "x", "--num=bad", "--help"], ["one", "x", "--version"], [], ["len"], ["len", "a", "b", "c"], ["grp", "x"], ["grp"], ["bad"], ["help", "grp"],
+    ["many", "a", "--", "-x", "--flag"], ["many", "b", "--flag"], ["many", "c", "--version"], ["many", "--flag", "d", "e"],
 ]
 
 
@@ -82,6 +83,8 @@ class Env(object):
         other = grp.create_sub_command("other")
         other.set_description("other sub").set_handler(H("other"))
         c.create_command("bad").set_description("fails").set_handler(H("bad", True))
+        many = c.create_command("many").set_description("many values")
+        many.add_argument("items", A.MULTI_VALUED, "items").add_option("flag", "f", O.NO_VALUE, "a flag").set_handler(H("many"))
         return self.App(c)
 
     def run(self, app, raw):
@@ -136,7 +139,7 @@ def classify(record, k):
 
 HELPISH = {6, 7, 8, 9, 17}
 FAILING = {2, 3, 4, 5, 9, 16}
-NORMAL = {0, 1, 12, 13, 14, 15}
+NORMAL = {0, 1, 12, 13, 14, 15, 19, 21}
 
 
 def nontrivial(idx):
